@@ -549,6 +549,40 @@ def evaluate(case, env):
                         break
                 if bad:
                     break
+                # continuation lines of a simple statement that spans several physical lines (and holds no scope of its
+                # own) belong to the same scope as its first line
+                if not hasattr(stn, "body") and stn.end_lineno > stn.lineno and not any(
+                    isinstance(x, (ast.Lambda, ast.ListComp, ast.SetComp, ast.DictComp, ast.GeneratorExp)) for x in ast.walk(stn)
+                ) and not any(isinstance(x, ast.Constant) and isinstance(x.value, (str, bytes)) and x.end_lineno > x.lineno for x in ast.walk(stn)):
+                    for L2 in range(stn.lineno + 1, stn.end_lineno + 1):
+                        if not lines[L2 - 1].strip() or lines[L2 - 1].lstrip().startswith("#"):
+                            continue
+                        ind2 = len(lines[L2 - 1]) - len(lines[L2 - 1].lstrip())
+                        ind1 = len(lines[stn.lineno - 1]) - len(lines[stn.lineno - 1].lstrip())
+                        if ind2 < ind1 or "\t" in lines[L2 - 1][:ind2] or "\t" in lines[stn.lineno - 1][:ind1]:
+                            # input feature of a recorded finding: the continuation line is indented less than its statement
+                            out.labels["dedented_continuation_line"] += 1
+                            if env.known("dedented_continuation_line_held_by_outer_scope"):
+                                out.excluded["dedented_continuation_line_held_by_outer_scope"] += 1
+                                continue
+                        out.evals += 1
+                        try:
+                            g2 = gscope.get_inner_scope_for_line(L2)
+                        except Exception as e:
+                            vio("holding_scope_raised:" + type(e).__name__, "line %d: %r" % (L2, e))
+                            bad = True
+                            break
+                        if g2 is not rp:
+                            out.labels["continuation_line_scope_differs"] += 1
+                            vio(
+                                "holding_scope_continuation_line:%s" % ref.kind,
+                                "line %d %r continues the statement of line %d in %s %r; rope answers %s at line %s"
+                                % (L2, lines[L2 - 1].strip()[:50], stn.lineno, ref.kind, ref.name, _rope_kind(g2) if g2 is not None else None, g2.get_start() if g2 is not None else None),
+                            )
+                            bad = True
+                            break
+                    if bad:
+                        break
 
     deep = any(r.parent is not None and r.parent.parent is not None for r, _ in pairs) or nscopes >= 3
     if deep and feats & {"global", "nonlocal", "comprehension", "kwonly"} or any(r.kind == "class" and r.parent.kind == "function" for r, _ in pairs if r.parent is not None):
